@@ -235,7 +235,10 @@ static void run_case(Ctx& c, uint64_t idx) {
     // item counts: mostly few; now and then many, half of those at the counts where a fixed-size table, a batch or a counter type would end
     static const int COUNTS[] = {15, 16, 17, 31, 32, 33, 63, 64, 65, 99, 100, 101, 127, 128, 129, 255, 256, 257};
     QItems L; int n = r.chance(1, 40) ? (r.coin() ? r.range(9, 70) : COUNTS[r.below(18)]) : r.range(0, 8);
+    // keys and values as web frameworks write them, among the random ones
+    static const char* const WK[] = {"ids[]", "a[0]", "user[name]", "user[address][city]", "[]", "k[]", "x[][]", "q", "utf8", "_method", "page", "a.b", "x-y", "a b", "a+b", "100%", "=&", "%5B%5D", "ids%5B%5D", "\xE2\x9C\x93", "redirect_uri", "http://h/p?x=1&y=2#f", "*", "~", "sig"};
     for (int i = 0; i < n; i++) { QItem it; it.key = r.chance(1, 6) ? Str() : gen_string(r, 10); it.hasValue = r.chance(2, 3); if (it.hasValue) it.value = r.chance(1, 6) ? Str() : gen_string(r, 10);
+        if (r.chance(1, 8)) it.key = WK[r.below(25)]; if (it.hasValue && r.chance(1, 12)) it.value = WK[r.below(25)];
         if (n <= 8 && r.chance(1, 40)) { size_t len = special_length(r) % 1100; Str x = gen_string(r, len); while (x.size() < len) x += gen_string(r, len - x.size()).empty() ? Str("a") : gen_string(r, len - x.size()); x.resize(len);
             // half of them a token as real queries carry them (digest, session id, base64url): nothing in it needs escaping
             if (r.coin()) { static const char tk[] = "0123456789abcdefABCDEFghijklmnopqrstuvwxyzGHIJKLMNOPQRSTUVWXYZ-._~"; int style = (int)r.below(3); for (auto& ch : x) ch = tk[style == 0 ? r.below(16) : r.below(sizeof tk - 1)]; }
